@@ -31,6 +31,8 @@ def gen_floats(dist, rng, n):
         return rng.uniform(1., 400., size=n)
     if dist == 'moderate':
         return rng.choice([-1., 1.], size=n) * 10. ** rng.uniform(-3, 3, size=n)
+    if dist == 'micro':                               # small against a numeric reference of 1: digits beyond 15.65 matter
+        return 10. ** rng.uniform(-9, -6) * rng.uniform(1., 7., size=n) * rng.choice([-1., 1.])
     if dist == 'tiny':                                # span far below any numeric reference's precision
         return 10. ** rng.integers(-200, -25) * rng.uniform(1., 7., size=n)
     if dist == 'withzeros':
